@@ -18,6 +18,11 @@ ASSUMPTIONS = ['the str oracle is the str type of the interpreter the suite runs
                'empty separator excluded; expandtabs(n) = replace(tab, n spaces); zfill = rjust with 0; default strip set " \\t\\n\\r\\v\\f"']
 
 
+# every character str.splitlines treats as a line boundary, and their nearest non-boundary neighbours
+LINES = ['\n', '\r', '\x0b', '\x0c', '\x1c', '\x1d', '\x1e', '\x85', '\u2028', '\u2029',
+         '\x1f', '\x1a', '\x84', '\x86', '\u2027', '\u202a', 'a']
+
+
 def bounds(tier):
     q = tier == 'quick'
     return {'search_len': 4 if q else 5, 'pat_len': 2, 'ws_len': 3 if q else 4, 'case_len': 3 if q else 4, 'pad_len': 3}
@@ -143,6 +148,8 @@ def tasks(tier, seed):
     for a in W:
         out.append({'fam': 'ws', 'first': a})
     out.append({'fam': 'ws', 'first': None})
+    for a in LINES:
+        out.append({'fam': 'lines', 'first': a})
     C = ['a', 'A', '1', ' ', "'", '\xdf', 'ǆ', 'ǅ', 'İ', '\xb2', '١', '_']
     for a in C:
         out.append({'fam': 'case', 'first': a})
@@ -244,6 +251,10 @@ def run_task(task, acc):
             ts = (task['first'] + s for s in strings(W, b['ws_len'] - 1))
         for t in ts:
             run_text(t, ('S', 'T', 's'), ws_cases(t), acc)
+    elif fam == 'lines':
+        for t in (task['first'] + u for u in strings(LINES, 2 if tier == 'quick' else 3)):
+            run_text(t, ('S', 'T', 's'), [('splitlines', ()), ('splitlines', (True,)), ('splitlines', (False,)),
+                                          ('split', ()), ('rsplit', ()), ('strip', ()), ('isspace', ())], acc)
     elif fam == 'case':
         C = ['a', 'A', '1', ' ', "'", '\xdf', 'ǆ', 'ǅ', 'İ', '\xb2', '١', '_']
         if task['first'] is None:
